@@ -205,6 +205,21 @@ CLAIMS = {
         technique="Lean 4 proof (map refinement with lookup-order lemmas) + history-based differential "
                   "correspondence",
         ref="DESIGN.md §6 C12"),
+    "C16": dict(
+        text="Lean 4 theorem (Mathlib, any field): for EVERY affine (rotations, shears, flips, even singular), "
+             "translation and non-zero voxel sizes the transform the code builds (columns divided by the voxel "
+             "size, translation 10^6 t - R(res/2)) maps the corner-based coordinate of every voxel centre to the "
+             "position the file's affine assigns to it, in nanometres; the announced data type is the input type "
+             "when Neuroglancer supports it, otherwise float32 together with exit status 4. Tie: NIfTI files "
+             "with rotated/sheared/flipped/anisotropic affines, 3-D/4-D/RGB, scaled headers, run through the "
+             "real volume_file_to_info; the 12 transform entries compared with the Lean rational model, the "
+             "voxel-centre identity, size, channels, resolution, sharding option, representability of the "
+             "delivered values and the URL form parse-back checked on the written files.",
+        note="Trusted: Lean kernel; standard axioms; voxel sizes (column norms) observed from nibabel, not "
+             "modelled; float64 evaluation vs exact rationals within 1e-9 relative; URL form exploration-level.",
+        technique="Lean 4 proof (field identity via field_simp/ring) + differential correspondence on "
+                  "rational arithmetic",
+        ref="DESIGN.md §6 C16"),
 }
 
 ALL = ["C%02d" % i for i in range(1, 21)]
